@@ -239,23 +239,38 @@ structure MonoState where
   tris : List Tri
   ok : Bool               -- false = "polygon was not monotone" panic
 
+def flipTri (t : Tri) : Tri := (t.2.1, t.1, t.2.2)
+
+/-- The orientation the chain geometry dictates for a fan triangle `{stack[i], stack[i+1], v}`:
+as listed when the stack lies on the upper chain, first two corners swapped on the lower chain
+(the same rule the same-chain branch of the Go code applies explicitly). -/
+def rawFan (ty : VType) (t : Tri) : Tri := if ty = .upper then t else flipTri t
+
 /-- One iteration of the main loop for vertex `v` of type `ty`, `i` = loop index, `last` = whether
-`i == len(state.Coords)-2`. -/
-def monoStep (c : Nat → P2 α) (s : MonoState) (i : Nat) (last : Bool) (v : Nat) (ty : VType) : MonoState :=
+`i == len(state.Coords)-2`.  `fan stackType t` is how a fan triangle is oriented: the Go code uses
+`fixCW` (`if !isPolygonClockwise(tri) {swap}`), the area theorem is about `rawFan`; the two agree
+whenever the `rawFan` triangle is clockwise (`fixCW_eq_rawFan`). -/
+def monoStepG (fan : VType → Tri → Tri) (c : Nat → P2 α) (s : MonoState) (i : Nat) (last : Bool) (v : Nat)
+    (ty : VType) : MonoState :=
   if i = 0 then { s with stackType := ty, stack := v :: s.stack }
   else if ty = .end then
-    { s with tris := s.tris ++ (fanTris s.stack.reverse v).map (fixCW c), stack := [], ok := s.ok && last }
+    { s with tris := s.tris ++ (fanTris s.stack.reverse v).map (fan s.stackType), stack := [], ok := s.ok && last }
   else if ty ≠ s.stackType then
-    { s with tris := s.tris ++ (fanTris s.stack.reverse v).map (fixCW c),
+    { s with tris := s.tris ++ (fanTris s.stack.reverse v).map (fan s.stackType),
              stack := [v, s.stack.headD 0], stackType := ty }
   else if s.stackType = .upper ∨ s.stackType = .lower then
     let r := popLoop c (s.stackType = .upper) v s.stack []
     { s with tris := s.tris ++ r.2, stack := v :: r.1 }
   else { s with stack := v :: s.stack }
 
-def monoLoop (c : Nat → P2 α) (ty : Nat → VType) (n : Nat) : MonoState → Nat → List Nat → MonoState
+def monoLoopG (fan : VType → Tri → Tri) (c : Nat → P2 α) (ty : Nat → VType) (n : Nat) :
+    MonoState → Nat → List Nat → MonoState
   | s, _, [] => s
-  | s, i, v :: vs => monoLoop c ty n (monoStep c s i (i + 2 == n) v (ty v)) (i + 1) vs
+  | s, i, v :: vs => monoLoopG fan c ty n (monoStepG fan c s i (i + 2 == n) v (ty v)) (i + 1) vs
+
+/-- The Go loop. -/
+def monoLoop (c : Nat → P2 α) (ty : Nat → VType) (n : Nat) : MonoState → Nat → List Nat → MonoState :=
+  monoLoopG (fun _ => fixCW c) c ty n
 
 /-- `triangulateMonotoneMesh` (`none` = a panic). -/
 def monoTris (c : Nat → P2 α) (m : Loops) : Option (List Tri) :=
